@@ -267,7 +267,7 @@ bool ProcessExecutor::handleRead(int rpipe, unsigned int &result, const std::str
             std::exit(EXIT_FAILURE);
         }
 
-        if (hasToLog(msg))
+        if (hasToLog(msg) || isSuppressedCriticalError(msg))
             mErrorLogger.reportErr(msg);
     } else if (type == PipeWriter::REPORT_SUPPR_INLINE || type == PipeWriter::REPORT_SUPPR) {
         if (!buf.empty()) {
